@@ -8,6 +8,7 @@ import Req.Lemmas.C02H2
 import Req.Lemmas.C02Chunked
 import Req.Lemmas.C02H3
 import Req.Lemmas.C02Hex
+import Req.Lemmas.C02Trailer
 /-!
 C02 — response fidelity: property theorems.
 
@@ -170,6 +171,45 @@ theorem read_split_independent_chunked_no_trailer (cap : Nat) (hcap : 2 ≤ cap)
   obtain ⟨rfl, h4, h5, h6⟩ := h2 e he
   exact ⟨h4, he, h5, h6⟩
 
+/-- **read_split_independent, chunked with trailer fields.** As above with a trailer section
+of fields `fs` (each `name ":" OWS value OWS CRLF`, any optional whitespace, token names of
+any case) that fits the read buffer: a complete read delivers exactly the chunk data and
+`Response.Trailer` receives exactly those fields — canonical names, values without the
+optional whitespace, wire order — and `rest` is left on the connection. -/
+theorem read_split_independent_chunked_trailers (cap : Nat) (cs : List WChunk) (hcs : ∀ c ∈ cs, c.OK cap)
+    (last : Bytes) (hl : LastOK cap last) (fs : List WField) (hfs : ∀ f ∈ fs, f.OK) (hne : fs ≠ [])
+    (hfit : (blockWire fs).length ≤ cap) (rest : Bytes)
+    (segs : List Bytes) (hsegs : segs.flatten = wireFrom cs last (blockWire fs ++ rest)) (fin : NetEnd)
+    (ks : List Nat) (hpos : ∀ k ∈ ks, 0 < k) (hlen : (dataOf cs).length < ks.length) :
+    let run := (H1Body.new .chunked (Bufio.new cap ⟨segs, fin⟩)).runReads ks
+    outBytes run.1 = dataOf cs ∧ lastErr run.1 = some .eof ∧ run.2.trailer = some (fieldsOf fs) ∧
+      run.2.br.rem = rest := by
+  have h := read_split_independent_chunked cap cs hcs last hl (blockWire fs ++ rest) rest (some (fieldsOf fs))
+    (trailerOK_fields cap fs hfs hne hfit rest) segs hsegs fin ks
+  obtain ⟨_, h2, h3⟩ := h
+  obtain ⟨e, he⟩ := h3 hpos hlen
+  obtain ⟨rfl, h4, h5, h6⟩ := h2 e he
+  exact ⟨h4, he, h5, h6⟩
+
+/-- **Field block round trip** (response head fields and trailer sections share the reader):
+what the origin writes for the fields `fs`, followed by anything, is read back as exactly
+`fs` — canonical names, values without optional whitespace, wire order — consuming exactly
+the block. -/
+theorem field_block_roundtrip (fs : List WField) (hfs : ∀ f ∈ fs, f.OK) (R : Bytes) :
+    parseFieldBlock ((blockWire fs ++ R).length + 1) (blockWire fs ++ R) =
+      some (fieldsOf fs, (blockWire fs).length) := by
+  apply parseFieldBlock_block fs hfs R
+  have : fs.length ≤ (blockWire fs).length := by
+    clear hfs
+    induction fs with
+    | nil => simp
+    | cons f fs ih =>
+      rw [blockWire_cons]
+      simp only [List.length_cons, List.length_append]
+      omega
+  simp only [List.length_append]
+  omega
+
 /-- **read_split_independent, chunked, Go's own encoder.** The origin wrote the non-empty
 chunks `ds` exactly as Go's chunked writer does (`%x` CRLF, data, CRLF … `0` CRLF), then an
 empty trailer section, then `rest`. For every segmentation, every connection end, every
@@ -196,6 +236,25 @@ example :
 
 example : WChunk.OK 4096 ⟨[51, 59, 120, 13], [97, 98, 99]⟩ := by
   refine ⟨by decide, by decide, by rfl, by decide, by decide⟩
+
+/-! Non-vacuity: chunk "hi", trailer `x-t:  v ` + `X-T: w`, then "N"; segments cut everywhere. -/
+example :
+    let run := (H1Body.new .chunked (Bufio.new 4096
+        ⟨[[50, 13, 10, 104], [105, 13, 10, 48, 13, 10, 120, 45], [116, 58, 32, 32, 118, 32, 13],
+          [10, 88, 45, 84, 58, 32, 119, 13, 10, 13], [10, 78]], .eof⟩)).runReads [9, 9]
+    run.1 = [([104, 105], some .eof)] ∧
+    run.2.trailer = some [([88, 45, 84], [118]), ([88, 45, 84], [119])] ∧ run.2.br.rem = [78] := by
+  decide
+
+example : WField.OK ⟨[120, 45, 116], [32, 32], [118], [32]⟩ := by
+  refine ⟨by decide, by decide, ⟨by decide, ?_, ?_⟩, by decide, by decide⟩
+  · intro a rest h; simp at h; rw [← h.1]; decide
+  · intro a pre h
+    have : pre = [] ∧ a = 118 := by
+      cases pre with
+      | nil => simp at h; exact ⟨rfl, h.symm⟩
+      | cons p ps => cases ps <;> simp at h
+    rw [this.2]; decide
 
 example : LastOK 4096 [48, 13] := by
   refine ⟨by decide, by rfl, by decide, by decide⟩
